@@ -147,10 +147,16 @@ class Gen:
                 r = a / b
             else:
                 # exponent: small literal, or (rarely) an expression with a positive base
-                if self.rng.random() < 0.75:
+                if self.rng.random() < 0.6:
                     r = a ** self.rng.choice([2, 3, 0.5, 1.852, 1, 0, 2.0])
                 else:
-                    r = E.abs(a) ** b if not isinstance(a, (int, float)) else a ** b
+                    # exponent = compound expression containing variables; base = parameter, positive constant or |expr|
+                    if isinstance(b, (int, float)) or b.is_leaf():
+                        b = (self.rng.choice(self.vars) + self.rng.choice(self.vars)) * 0.5
+                    base = self.rng.choice([self.params[0], 3.0, 1.5, E.abs(a) if not isinstance(a, (int, float)) else 2.0])
+                    if not isinstance(base, (int, float)) and base.is_leaf() and base.value <= 0:
+                        base = E.abs(base) + 0.5
+                    r = base ** b
         elif k < 0.8:
             a = self.expr(depth - 1)
             if isinstance(a, (int, float)):
@@ -229,10 +235,21 @@ def _direct(e):
 
 
 def _direct_ad(e, v):
+    """independent second opinion for a Jacobian entry: central finite difference of the interpreted evaluation"""
     try:
-        d = e.reverse_ad()
-        return float(d.get(v, 0.0))
+        x0 = v.value
+        h = 1e-6 * max(1.0, abs(x0))
+        v.value = x0 + h
+        f1 = float(e.evaluate())
+        v.value = x0 - h
+        f0 = float(e.evaluate())
+        v.value = x0
+        return (f1 - f0) / (2 * h)
     except Exception:
+        try:
+            v.value = x0
+        except Exception:
+            pass
         return None
 
 
@@ -494,7 +511,7 @@ def check(run, replay=None):
             # implementation itself: does the compiled value differ from the implementation's own direct
             # (interpreted) evaluation / reverse-mode derivative of the same expression?
             so = mm.get("second_opinion")
-            if so is not None and abs(so - mm["impl"]) <= 1e-7 * max(1.0, abs(so)):
+            if so is not None and abs(so - mm["impl"]) <= 1e-5 * max(1.0, abs(so)):
                 undecided += 1
                 continue
             run.violation("compiled_vs_direct_" + mm["check"].split(" d/d")[0].replace(" ", "_"),
